@@ -25,10 +25,14 @@
 (* enabled (the asyncio loop runs everything that is ready first).         *)
 (*                                                                         *)
 (* Switches (TRUE = repaired / ideal behaviour, FALSE = the code as it is): *)
-(*   CancelTail       the gather at the END of run_stream is outside the    *)
-(*                    try/except that cancels the sibling streams, so a     *)
-(*                    failure below a tail group leaves the siblings        *)
-(*                    running after the composite has raised (orphans)      *)
+(*   CancelTail       FALSE: the gather at the END of run_stream is outside  *)
+(*                    the try/except that cancels the sibling streams, so a  *)
+(*                    failure below a tail group leaves the siblings         *)
+(*                    running after the composite has raised (orphans).      *)
+(*                    TRUE (since the fix in /repo): it is inside.           *)
+(*   AwaitCancelled   TRUE (since the fix): the except clause awaits the     *)
+(*                    streams it has cancelled before it re-raises; FALSE:   *)
+(*                    it re-raises at once.                                  *)
 (*   ValidateUpFront  unsupported / malformed items are only detected when  *)
 (*                    the scan reaches them, i.e. after earlier requests    *)
 (*                    have been sent                                        *)
@@ -39,6 +43,7 @@ CONSTANTS Trees,            \* set of trees
           MaxConns,         \* set of values of max-connections; 0 = not given (sys.maxsize)
           MayFail,          \* BOOLEAN: sub-requests may raise
           CancelTail,
+          AwaitCancelled,
           ValidateUpFront
 
 VARIABLES tree, maxc,
@@ -112,12 +117,17 @@ OpInFlight(p) == \E o \in Items(p) : ost[o] = "flight"
 GatherRaises(p) == sst[p] = "live" /\ AtAwait(p) /\ PendingFailure(p)
 Rejects(p) == /\ sst[p] = "live" /\ HasStop(p) /\ Kind(NextStop(p)) \in {"unsup", "bad"} /\ Reached(NextStop(p))
 (* p calls cancel() on its unfinished streams: except-clause of run_stream, or gather.cancel() *)
+ExceptClause(p) == Mid(p) \/ CancelTail             \* the gather p waits in is inside the try block
 MustCancelKids(p) == /\ sst[p] = "live"
                      /\ \/ (~creq[p] /\ Rejects(p))
-                        \/ (~creq[p] /\ GatherRaises(p) /\ (Mid(p) \/ CancelTail))
+                        \/ (~creq[p] /\ GatherRaises(p) /\ ExceptClause(p))
                         \/ (creq[p] /\ ~PendingFailure(p))
-(* cancelled while the failure of a stream is being delivered: either order happens in asyncio *)
+                        \/ (creq[p] /\ PendingFailure(p) /\ ExceptClause(p))
+(* cancelled while the failure of a stream is being delivered at a gather outside the try block: gather.cancel()
+   cancels the streams, a CancelledError thrown into the already woken task does not - either happens in asyncio *)
 MayCancelKids(p) == MustCancelKids(p) \/ (sst[p] = "live" /\ creq[p] /\ PendingFailure(p))
+(* what p needs of its unfinished streams before it ends with an exception raised at / thrown into its gather *)
+KidsSettled(p) == IF AwaitCancelled THEN LiveKids(p) = {} ELSE \A k \in LiveKids(p) : creq[k]
 
 (* ------------------------------- guards -------------------------------- *)
 ForkG(c) == /\ IsStream(c) /\ sst[c] = "new" /\ ~Blocked /\ Alive(Par(c)) /\ Reached(c)
@@ -133,10 +143,10 @@ DeadCause(s) ==
     IF ~(s \in Lists /\ sst[s] = "live" /\ ~OpInFlight(s)) THEN {}
     ELSE IF creq[s] /\ ~PendingFailure(s) THEN (IF LiveKids(s) = {} THEN {0} ELSE {})
     ELSE IF creq[s] THEN
-         (IF (\A k \in LiveKids(s) : creq[k]) \/ (~Mid(s) /\ ~CancelTail) THEN {0} \cup {err[k] : k \in DeadKids(s)} ELSE {})
-    ELSE IF Rejects(s) THEN (IF \A k \in LiveKids(s) : creq[k] THEN {NextStop(s)} ELSE {})
+         (IF ExceptClause(s) => KidsSettled(s) THEN {0} \cup {err[k] : k \in DeadKids(s)} ELSE {})
+    ELSE IF Rejects(s) THEN (IF KidsSettled(s) THEN {NextStop(s)} ELSE {})
     ELSE IF GatherRaises(s) THEN
-         (IF (Mid(s) \/ CancelTail) => (\A k \in LiveKids(s) : creq[k]) THEN {err[k] : k \in DeadKids(s)} ELSE {})
+         (IF ExceptClause(s) => KidsSettled(s) THEN {err[k] : k \in DeadKids(s)} ELSE {})
     ELSE {}
 FinishDeadG(s) == DeadCause(s) # {}
 RejectAllG == Blocked /\ sst[0] = "live"
